@@ -155,23 +155,33 @@ def _sent(dtype):
     return np.frombuffer(bytes([SENT]) * dtype.itemsize, dtype=dtype)[0] if dtype != np.bool_ else True
 
 
+def _carve(shape, dtype, order='C', slack=0):
+    """a buffer of `shape` carved out of a larger sentinel-filled root, with room behind it: if a weakened guard
+    lets a kernel write a whole result through a wrong-shaped / wrong-typed / reversed buffer, the writes stay
+    inside the root (and show up as a touched buffer) instead of corrupting the heap of the checking process"""
+    dtype = np.dtype(dtype)
+    n = int(np.prod(shape))
+    pad = (64 * max(n, slack) + 1024) // dtype.itemsize + 8
+    root = np.empty(n + pad, dtype)
+    root[...] = _sent(dtype)
+    return root[:n].reshape(shape, order=order)
+
+
 def _mk_out(variant, shape, dtype, g, args, e):
     """-> (buffer, valid?) or None when the variant does not apply"""
     shape = tuple(shape)
     dtype = np.dtype(dtype)
-
-    def filled(a):
-        a[...] = _sent(a.dtype)
-        return a
+    n0 = int(np.prod(shape))
+    loose = 'contig' not in e['req']
     if variant == 'valid':
-        return filled(np.empty(shape, dtype)), True
+        return _carve(shape, dtype), True
     if variant == 'wrong_dtype':
         if 'dtype' not in e['req']:
             return None
         cands = [d for d in (np.uint8, np.int32, np.float64, np.bool_, np.uint16, np.float32) if np.dtype(d) != dtype]
         if e['path'].endswith('hitmiss'):
             cands = [d for d in cands if np.dtype(d) not in (np.dtype(bool), np.dtype(np.uint8))] + [np.int8]
-        return filled(np.empty(shape, g.r.choice(cands))), False
+        return _carve(shape, g.r.choice(cands), slack=n0), False
     if variant in ('wrong_shape', 'wrong_shape_t'):
         if 'shape' not in e['req']:
             return None
@@ -184,20 +194,21 @@ def _mk_out(variant, shape, dtype, g, args, e):
             s2 = shape[::-1]
             if s2 == shape:
                 return None
-        return filled(np.empty(s2, dtype)), False
+        return _carve(s2, dtype, slack=n0), False
     if variant == 'strided':
-        big = filled(np.empty(tuple(2 * s for s in shape), dtype))
+        big = _carve(tuple(2 * s for s in shape), dtype)
         v = big[tuple(slice(None, None, 2) for _ in shape)]
-        return v, bool(v.flags.c_contiguous) or 'contig' not in e['req']
+        return v, bool(v.flags.c_contiguous) or loose
     if variant == 'negstride':
-        big = filled(np.empty(shape, dtype))
-        v = big[tuple(slice(None, None, -1) for _ in shape)]
-        return v, bool(v.flags.c_contiguous) or 'contig' not in e['req']
+        # the view's data pointer is the LAST element of its block: keep a full block of slack behind it
+        big = _carve((2,) + shape, dtype)
+        v = big[0][tuple(slice(None, None, -1) for _ in shape)]
+        return v, bool(v.flags.c_contiguous) or loose
     if variant == 'fortran':
-        v = filled(np.empty(shape, dtype, order='F'))
-        return v, bool(v.flags.c_contiguous) or 'contig' not in e['req']
+        v = _carve(shape, dtype, order='F')
+        return v, bool(v.flags.c_contiguous) or loose
     if variant == 'readonly':
-        v = filled(np.empty(shape, dtype))
+        v = _carve(shape, dtype)
         v.setflags(write=False)
         return v, None
     if variant == 'alias':
@@ -386,6 +397,49 @@ def _eval_out(cases):
     return res
 
 
+def _isolated(cases):
+    """run `_eval_out` in a forked child: a weakened guard can let a native kernel write through a bad buffer and
+    kill the process; the crash is then a finding for the offending case instead of the end of the check"""
+    import os, pickle, signal, traceback
+    if not cases:
+        return []
+    r, w = os.pipe()
+    pid = os.fork()
+    if pid == 0:
+        code = 0
+        try:
+            os.close(r)
+            signal.alarm(120 + len(cases))
+            data = pickle.dumps(_eval_out(cases))
+            with os.fdopen(w, 'wb') as fh:
+                fh.write(data)
+        except BaseException:  # noqa
+            traceback.print_exc()
+            code = 3
+        finally:
+            os._exit(code)
+    os.close(w)
+    with os.fdopen(r, 'rb') as fh:
+        data = fh.read()
+    _, status = os.waitpid(pid, 0)
+    if os.WIFEXITED(status) and os.WEXITSTATUS(status) == 0:
+        return pickle.loads(data)
+    if os.WIFEXITED(status):
+        raise core.Infra(f'C09 evaluation raised in the isolated child (exit {os.WEXITSTATUS(status)})')
+    sig = os.WTERMSIG(status)
+    if len(cases) == 1:
+        c = cases[0]
+        e = _registry()[c['fn']]
+        what = 'hang' if sig == signal.SIGALRM else f'crash-signal-{sig}'
+        return [dict(findings=[dict(kind='property', key=_key(e, c['param'], c['variant'], what),
+                                    detail=dict(fn=e['path'], param=c['param'], variant=c['variant'], nd=c['nd'], signal=sig))],
+                     nontrivial=True, sig=json.dumps(c, sort_keys=True),
+                     tags=dict(stream='out', fn=e['path'].rsplit('.', 1)[1], param=c['param'], variant=c['variant'], nd=c['nd'],
+                               outcome=what))]
+    h = len(cases) // 2
+    return _isolated(cases[:h]) + _isolated(cases[h:])
+
+
 def _eval_getout(cases):
     from mahotas.internal import _get_output
     lines, objs = [], []
@@ -446,7 +500,7 @@ def _eval_cover(case):
 
 def evaluate(cases):
     out = [None] * len(cases)
-    for stream, fn in (('out', _eval_out), ('getout', _eval_getout)):
+    for stream, fn in (('out', _isolated), ('getout', _eval_getout)):
         sel = [(i, c) for i, c in enumerate(cases) if c.get('stream') == stream]
         if sel:
             for (i, _), r in zip(sel, fn([c for _, c in sel])):
